@@ -55,6 +55,21 @@ func init() {
 					{Name: "p1", Ops: []Op{{Op: "pass"}, {Op: "pass"}}},
 					{Name: "z", Ops: []Op{{Op: "rootclose"}}},
 				}}})
+			// "a report triggered by re-requesting a closed scope": increments around Close and re-request of a sub-scope
+			// while passes run; every choice at the operations, the pass's visit of a scope and its closed-flag read
+			out = append(out, scenarioSet{mode: "dfs", maxExec: 6000, sc: &Scenario{
+				Name: "c01-close-in-pass-" + rep, Reporter: rep, Points: []string{"op_inc", "op_close", "rp_visit", "cv_cas", "sr_g", "sr_h", "rm_runlock"},
+				Threads: []ThreadSpec{
+					{Name: "a1", Ops: []Op{{Op: "sub", H: "s", Name: "s"}, {Op: "inc", H: "s", M: "c", V: 1}, {Op: "inc", H: "s", M: "c", V: 2}, {Op: "close", H: "s"}}},
+					{Name: "p1", Ops: []Op{{Op: "pass"}}},
+				}}})
+			out = append(out, scenarioSet{mode: "random", maxExec: 400, sc: &Scenario{
+				Name: "c01-reacquire-" + rep, Reporter: rep, Shards: 1,
+				Threads: []ThreadSpec{
+					{Name: "a1", Ops: []Op{{Op: "sub", H: "s", Name: "s"}, {Op: "inc", H: "s", M: "c", V: 1}, {Op: "inc", H: "s", M: "c", V: 2}, {Op: "close", H: "s"},
+						{Op: "sub", H: "s", Name: "s"}, {Op: "inc", H: "s", M: "c", V: 4}}},
+					{Name: "p1", Ops: []Op{{Op: "pass"}, {Op: "pass"}}},
+				}}})
 		}
 		return out
 	}
